@@ -31,13 +31,16 @@ PROPS = {
                         "fmt's %3d / %d formatting is modelled (pad3, decimal) and validated by the POS channel"],
     },
     "C12": {
-        "module": "MF.Props.C12",
-        "theorems": ["MF.Props.C12.fails_iff_lexical_error", "MF.Props.C12.pieces_ok_partial", "MF.Props.C12.never_crashes"],
+        "module": "MF.Props.C12Tokens",
+        "theorems": ["MF.Props.C12.fails_iff_lexical_error", "MF.Props.C12.pieces_ok_partial", "MF.Props.C12.never_crashes",
+                     "MF.Props.C12.succeeds_only_if_lexes", "MF.Props.C12.pieces_from_tokens", "MF.Props.C12.no_semicolon_inside",
+                     "MF.Props.C12.tokens_in_one_piece", "MF.Props.C12.comments_in_one_piece", "MF.Props.C12.between_pieces",
+                     "MF.Props.C12.after_last_piece", "MF.Props.C12.semicolon_ends_piece", "MF.Props.C12.first_piece_at_zero"],
         "channels": ["SPLIT", "LEX"],
         "pred": True,
         "level": "proof",
         "trusted_base": M0_TRUST + ["hand-written model MF/Model/Split.lean of split.go"],
-        "assumptions": ["the token-level clauses (no ';' inside a piece, exactly one ';' plus whitespace between pieces, every token and comment in exactly one piece) are evaluated on the implementation and tied by the SPLIT channel; not proved in Lean (partial)"],
+        "assumptions": ["all clauses of C12 are proved for the model; the model is tied to split.go and lexer.go by the SPLIT and LEX channels on the explored inputs"],
     },
     "C03": {
         "module": "MF.Props.C03",
